@@ -86,7 +86,7 @@ std::string pick_position(Tape& t, Report& rep)
 {
     // many hanging queens: a single quiescence search runs for 10^5..10^6 node visits, so a stop flag that is only
     // polled by the full-width search would not be seen for a long time
-    if (t.chance(1, 5))
+    if (t.chance(1, 4))
     {
         rep.cls("c06:explosive_position");
         if (t.flag())
@@ -106,7 +106,9 @@ std::string pick_position(Tape& t, Report& rep)
     return ref::to_fen(ref::startpos());
 }
 
-const long VISIT_BOUND = 200000;
+// Unwinding after a seen stop costs at most ~3 visits per remaining sibling move per ply (3 x 218 x 80 = 52k as an absolute
+// ceiling); measured on the unchanged tree: <= 100 visits in 99.6% of schedules, maximum below 1,000.
+const long VISIT_BOUND = 60000;
 
 bool prop_C06(Tape& t, Report& rep)
 {
@@ -118,12 +120,21 @@ bool prop_C06(Tape& t, Report& rep)
     S.counting_only = false;
 
     std::string fen = pick_position(t, rep);
+    const bool explosivePos = fen.find('/') != std::string::npos && (std::count(fen.begin(), fen.end(), 'Q') + std::count(fen.begin(), fen.end(), 'q')) >= 8;
     int form = t.weighted({5, 2, 2});  // infinite, depth, movetime
     std::string go = form == 0 ? "go infinite" : form == 1 ? "go depth " + std::to_string(4 + t.choose(3)) : "go movetime 20000";
     static const int POINTS[] = {verif::THREAD_START, verif::GO_ENTRY, verif::GO_AFTER_INIT, verif::GO_AFTER_RESET, verif::NODE, verif::NODE, verif::NODE, verif::ITER_END, verif::BEFORE_BESTMOVE};
     int pp = POINTS[t.choose(9)];
     uint64_t k = t.chance(1, 2) ? 1 + t.choose(60) : 1 + t.choose(100000);
     int iterN = 1 + int(t.choose(3));
+    if (explosivePos)
+    {
+        // stop in the middle of a huge quiescence search
+        pp = verif::NODE;
+        k = 1000 + t.choose(150000);
+        form = 0;
+        go = "go infinite";
+    }
     if (pp == verif::BEFORE_BESTMOVE && form == 0) go = "go depth " + std::to_string(3 + t.choose(2));  // an infinite search never gets there by itself
     bool extraIsready = t.chance(1, 3);
     std::string sched_desc = std::string("park@") + point_name(pp) + (pp == verif::NODE ? "#" + std::to_string(k) : pp == verif::ITER_END ? "#" + std::to_string(iterN) : "");
@@ -233,6 +244,18 @@ bool prop_C06(Tape& t, Report& rep)
         rep.cls("c06:inconclusive_no_bestmove_in_120s_without_visits");
         if (!recovered) _exit(3);
         return true;
+    }
+    {
+        // distribution of the unwinding cost (node visits between the release and bestmove), for the evidence
+        uint64_t further = S.visits.load() - visitsAtPark;
+        rep.cls(further <= 100 ? "c06:unwind_le_100_visits" : further <= 1000 ? "c06:unwind_le_1000_visits" : further <= 10000 ? "c06:unwind_le_10000_visits"
+                                                                                                                  : "c06:unwind_gt_10000_visits");
+        static uint64_t maxFurther = 0;
+        if (further > maxFurther)
+        {
+            rep.cls("c06:max_unwind_visits_seen_in_a_shard", further - maxFurther);
+            maxFurther = further;
+        }
     }
     // exactly one bestmove for this go
     int nb = 0;
